@@ -208,7 +208,7 @@ def run_sub(c):
 # ----------------------------------------------------------------------------------------------- point - polytope
 @st.composite
 def poly_case(draw, tier="quick"):
-    cfg = draw(st.sampled_from(["segment2", "segment3", "polygon2", "polygon3", "cuboid", "frustum", "quad_of_collection"]))
+    cfg = draw(st.sampled_from(["segment2", "segment3", "polygon2", "polygon3", "cuboid", "frustum", "quad_of_collection", "l_block"]))
     return {"cfg": cfg, "v": draw(Z.params()), "q": [draw(st.integers(-8, 8)) for _ in range(3)], "k": draw(st.integers(-4, 4)), "st": [draw(st.integers(-2, 6)), draw(st.integers(-2, 6))],
             "coll": draw(st.sampled_from([0, 0, 2])), "derive": draw(st.sampled_from([None, None, "translation*", "+point", "scaling*", "k*identity"])), "move": [draw(st.integers(-4, 4)) for _ in range(3)]}
 
@@ -232,6 +232,43 @@ def tri_dist(q, a, b, c):
 def run_poly(c):
     cfg, v = c["cfg"], c["v"]
     ck = Checker()
+    if cfg == "l_block":
+        # a non-convex solid: an L-shaped block of ten rectangles under an integer affine frame; the distance from an outside point is the
+        # minimum over all faces (a face may be the nearest one although the bulk of the solid lies on the other side of its plane)
+        from geometer import Polyhedron
+
+        A2, B1, H = 1 + abs(v[9]) % 2, 1 + abs(v[10]) % 2, 1 + abs(v[11]) % 2
+        A, B = A2 + 1 + abs(v[12]) % 3, B1 + 1 + abs(v[13]) % 3
+        o = np.array(v[0:3], float)
+        u, w0 = np.array(v[3:6], float), np.array(v[6:9], float)
+        x3 = np.cross(u, w0)
+        if not np.any(x3):
+            raise Skip("degenerate")
+        M = np.stack([u, w0, x3], axis=1)
+        loc = lambda p: o + M @ np.array(p, float)  # noqa: E731
+        faces = [[loc(p) for p in f[3]] for f in Z.l_block(A, A2, B1, B, H)]
+        s, t = c["st"]
+        lq = [s / 2 + 0.25, t / 2 + 0.25, c["k"] / 2 + 0.25]
+        if c["k"] % 2 == 0:
+            # inside the notch of the L, level with the block: the two inner walls are the nearest faces
+            lq = [A2 + 0.25 + (abs(s) % 6) / 2, B1 + 0.25 + (abs(t) % 6) / 2, H / 2]
+        if Z.in_l_block(lq, A, A2, B1, B, H):
+            raise Skip("interior point of a polyhedron")
+        q = loc(lq)
+        S = Polyhedron(*[Polygon(*[P(x) for x in f]) for f in faces])
+        exp = min(min(tri_dist(q, f[0], f[1], f[2]), tri_dist(q, f[0], f[2], f[3])) for f in faces)
+        Q = P(q)
+        if c["coll"]:
+            Q = PointCollection(np.stack([Q.array, Q.array * 3.0]))
+            exp = np.array([exp, exp])
+        site = "dist:l_block" + (":coll" if c["coll"] else "")
+        for tag, fn in (("", lambda: dist(S, Q)), (":swapped", lambda: dist(Q, S))):
+            r, ff = call(site + tag, fn)
+            if ff:
+                ck.add(ff)
+            elif ck.check(np.shape(r) == np.shape(exp), site + tag + ":shape", (np.shape(r), np.shape(exp))):
+                ck.check(close(r, exp, 1e-6), site + tag + ":value", (np.ravel(r)[:2].tolist(), np.ravel(exp)[:2].tolist()))
+        return ck.result()
     if cfg in ("frustum", "quad_of_collection"):
         # a truncated pyramid (square frustum, sheared by an integer frame): its four side faces are trapezoids - quadrilaterals that are
         # not parallelograms; the library turns every 4-vertex face it takes out of a collection into a Rectangle object
